@@ -104,6 +104,9 @@ M = [
  ('seed6-mi300a-local-window-128gb', MI300, lambda s: s.replace('dramSize:                       4 * mem.GB,', 'dramSize:                       128 * mem.GB,')),
  ('r9nano-local-window-8gb', R9, lambda s: s.replace('dramSize:                       4 * mem.GB,', 'dramSize:                       8 * mem.GB,')),
  ('mi300a-local-window-starts-at-zero', MI300, lambda s: s.replace('b.l1AddressMapper.LowAddress = b.memAddrOffset', 'b.l1AddressMapper.LowAddress = 0')),
+ ('seed7-code-reupload-only-across-contexts', KER, lambda s: s.replace('} else if upload.queue != queue && upload.queue.contains(upload.cmd) {', '} else if upload.queue.Context != queue.Context && upload.queue.contains(upload.cmd) {')),
+ ('code-reupload-dropped', KER, lambda s: s.replace('} else if upload.queue != queue && upload.queue.contains(upload.cmd) {', '} else if false && upload.queue != queue && upload.queue.contains(upload.cmd) {')),
+ ('code-reupload-only-when-first-queue-is-on-another-gpu', KER, lambda s: s.replace('} else if upload.queue != queue && upload.queue.contains(upload.cmd) {', '} else if upload.queue.GPUID != queue.GPUID && upload.queue.contains(upload.cmd) {')),
  ('magic-h2d-sizeLeftInPage-ignores-offset', GS, lambda s: nth(s, 'sizeLeftInPage := page.PageSize - (addr - page.VAddr)', 'sizeLeftInPage := page.PageSize', 0)),
  ('dma-h2d-sizeLeftInPage-ignores-offset', MC, lambda s: nth(s, 'sizeLeftInPage := page.PageSize - (addr - page.VAddr)', 'sizeLeftInPage := page.PageSize', 0)),
 ]
